@@ -670,7 +670,7 @@ func (e *Exec) restart(mode string, final bool) {
 		e.out.WriterSteps = e.sim.Step
 	}
 	if !e.o.NoFinalCheck || final {
-		d := DumpFile(e.path, DumpOpts{SkipValues: e.o.SkipValues})
+		d := DumpFile(e.path, DumpOpts{SkipValues: e.o.SkipValues, Partial: e.o.Property == "C01"})
 		if final {
 			e.out.Final = d
 		}
